@@ -163,7 +163,13 @@ def judge_cell(ctx, r, stage):
     if r.get("len_scale", LEN_SCALE) != LEN_SCALE:
         key += ":len_scale=%g" % r["len_scale"]
     if "error" in r:
-        ctx.violation(stage, "generator construction failed: %s" % r["error"], r, key=key + ":error")
+        if r["path"] == "pdfinv" and r["dim"] == 1 and "item assignment" in r["error"]:
+            # class independent: spectral_rad_pdf(<python scalar>) fails for every 1-D model, scipy's generic inversion calls it with scalars
+            key = "spectral-sampling:pdfinv:dim=1:spectral_rad_pdf(scalar):TypeError"
+        else:
+            key += ":error"
+        ctx.violation(stage, "RandMeth(%s(dim=%d), mode_no=%d, sampling=%r) failed: %s" % (
+            r["cls"], r["dim"], r["N"], {"ppf": "inversion", "cdf": "inversion", "pdfinv": "inversion", "auto": "auto"}.get(r["path"], "mcmc"), r["error"]), r, key=key)
         return False
     bad = r["ratio"] > 1.0 or r["nonfinite"] > 0
     # amplitudes: 2N iid standard normals  (mean 0 +- 8/sqrt(2N), variance 1 +- 8 sqrt(2/2N))
